@@ -13,8 +13,9 @@ import (
 )
 
 const EOF = -1
-const whitespace1 = 1<<'\t' | 1<<' '
-const whitespace2 = 1<<'\t' | 1<<'\n' | 1<<'\r' | 1<<' '
+// blanks are what C's isspace accepts: form feed and vertical tab too
+const whitespace1 = 1<<'\t' | 1<<' ' | 1<<'\f' | 1<<'\v'
+const whitespace2 = 1<<'\t' | 1<<'\n' | 1<<'\r' | 1<<' ' | 1<<'\f' | 1<<'\v'
 
 type Error struct {
 	Pos     ast.Position
